@@ -23,8 +23,11 @@ def run_one(prop, tier, only=None, quiet=False):
         ck.trusted = list(getattr(mod, "TRUSTED", []))
         ck.only = only
         mod.run(ck)
-        if tier == "thorough" and hasattr(mod, "run_thorough"):
-            mod.run_thorough(ck)
+        if tier == "thorough":
+            if hasattr(mod, "run_thorough"):
+                mod.run_thorough(ck)
+            from . import selfcheck
+            selfcheck.thorough(ck)
         code, lines = ck.finish()
     except AnalysisError as e:
         print("ANALYSIS-ERROR property=%s %s" % (prop, e))
